@@ -44,9 +44,14 @@ claim("C13", "proof", "exhaustive gate-table extraction by abstract interpretati
       "For each of the 81 operations the gate's result is obtained as a boolean function of the 16 feature flags and compared on every assignment of the flags involved with the reference table; form-specific flags (X/Y pointer, lpm/elpm Rd,Z) must appear as required path facts on every successful encoder path of the removed forms and on no other form; the gate dominates the encoder call in pass 2 and the encoder's bytes depend on the device only through the one-word lds/sts selection.",
       "Trusted: rustc MIR, spec/avr_features.json, E1. Flags per device are taken from the table as given (C13 quantifies over the table).", engine="E0+E1+E3")
 
+claim("C05", "proof", "operator-table agreement: precedence/associativity/literal table read from the PEG grammar (own reader of rust-peg syntax, cross-checked against the compiled parser's MIR); evaluator table extracted by abstract interpretation of Expr::run; bit provenance for byte/word functions",
+      "The expression language is a finite table implemented twice (grammar, evaluator). Grammar side: all 18 binary and 3 unary rows with level, fixity, associativity and token->variant pairing, decided with rust-peg's own translation rule (a precedence-climbing parser is fully determined by that table, so operator interactions are covered); literal prefixes, radices, digit classes, alternative order. Evaluator side: per operator variant the result of Expr::run with symbolic operands must be a single primitive operation that agrees with the reference on a boundary grid separating all primitives (value and failure behaviour: an input with neither an Ok nor an Err path is a violation); functions are decided exactly by bit provenance.",
+      "Trusted: rustc MIR, spec/operators.json, peg-macros 0.8.4 translation (read from source), E1. i64::MIN % -1 may be 0 or an error.", engine="E0+E1+E2")
+
 ENGINES = [
     {"name": "E0 fact driver", "path": "driver/", "serves_properties": sorted(P), "kind_free_text": "rustc_private driver (RUSTC_WORKSPACE_WRAPPER) dumping callee-resolved MIR, ADT/static/impl tables of /repo's two crates as JSON"},
     {"name": "E1 abstract interpreter", "path": "analysis/absint.py", "serves_properties": ["C01", "C02", "C03", "C04", "C05", "C06", "C08", "C12", "C13"], "kind_free_text": "path-sensitive abstract interpretation of MIR: named unknowns, value sets, bit provenance, linear forms; no solver, no execution of /repo"},
+    {"name": "E2 PEG reader", "path": "analysis/peg.py", "serves_properties": ["C01", "C05", "C14", "C16"], "kind_free_text": "own reader for the rust-peg grammar in src/document.rs (rules, ordered choice, classes, repetition, precedence!), cross-checked per rule against the literals in the compiled parser's MIR"},
     {"name": "E3 graphs", "path": "analysis/graph.py", "serves_properties": ["C15", "C16", "C17", "C18", "C11", "C09"], "kind_free_text": "call graph over resolved callees (virtual/default/fmt/vtable edges), CFG, dominators, reachability"},
 ]
 
